@@ -1,7 +1,10 @@
 //! C19 correspondence.
-//! A: real `mapped` / `line_mapped` / `tee` (libherokubuildpack::write) fed every chunking of every small input.
+//! A: real `mapped` / `line_mapped` / `tee` (libherokubuildpack::write) and their compositions, given every chunking of every
+//!    small input with `flush()` calls in between.
 //! B: real `CommandExt::output_and_write_streams` (libherokubuildpack::command) on the scripted `child` binary,
 //!    under a watchdog.
+//! M: the same and `spawn_and_write_streams` with `line_mapped` / `mapped` / `tee(line_mapped, Vec)` writers as the targets and
+//!    children whose lines arrive in pieces or are longer than the copy buffer / the pipe.
 use cnbv::*;
 use libherokubuildpack::command::CommandExt;
 use libherokubuildpack::write::mappers::add_prefix;
@@ -11,12 +14,15 @@ use std::sync::atomic::{AtomicBool, Ordering};
 use std::time::Duration;
 
 // ------------------------------------------------------------------------------------------------ A
-fn parse_chunks(s: &str) -> Vec<Vec<u8>> { split_list(s, ",").iter().map(|c| if *c == "_" { vec![] } else { unhex(c).unwrap() }).collect() }
+/// one call on the writer under test: `write` of a chunk or `flush()`
+#[derive(Clone, PartialEq)]
+enum Op { W(Vec<u8>), F }
+fn parse_ops(s: &str) -> Vec<Op> { split_list(s, ",").iter().map(|c| if *c == "F" { Op::F } else if *c == "_" { Op::W(vec![]) } else { Op::W(unhex(c).unwrap()) }).collect() }
 
 /// A target with scripted short writes: `f` accepts everything, `s<k>` at most k bytes per call, `a<k>` everything on odd calls
 /// and at most k on even calls; `i<n>`: every n-th call fails with `Interrupted`. Never `Ok(0)` for a non-empty buffer.
 /// Calls are counted only for non-empty buffers.
-struct Scripted { data: Vec<u8>, mode: u8, k: usize, intr: usize, calls: usize }
+struct Scripted { data: Vec<u8>, mode: u8, k: usize, intr: usize, calls: usize, flushes: usize }
 impl Scripted {
     fn parse(spec: &str) -> Scripted {
         let mode = spec.as_bytes()[0];
@@ -25,7 +31,7 @@ impl Scripted {
         let (ks, ns) = match rest.split_once('i') { Some((a, b)) => (a, Some(b)), None => (rest, None) };
         let k = if mode == b'f' { assert!(ks.is_empty()); 0 } else { let k: usize = ks.parse().unwrap(); assert!(k >= 1); k };
         let intr = ns.map(|n| { let n: usize = n.parse().unwrap(); assert!(n >= 2); n }).unwrap_or(0);
-        Scripted { data: vec![], mode, k, intr, calls: 0 }
+        Scripted { data: vec![], mode, k, intr, calls: 0, flushes: 0 }
     }
 }
 impl Write for Scripted {
@@ -37,16 +43,17 @@ impl Write for Scripted {
         self.data.extend_from_slice(&buf[..n]);
         Ok(n)
     }
-    fn flush(&mut self) -> std::io::Result<()> { Ok(()) }
+    fn flush(&mut self) -> std::io::Result<()> { self.flushes += 1; Ok(()) }
 }
 fn writers(spec: &str, n: usize) -> Vec<Scripted> {
     if spec == "-" { (0..n).map(|_| Scripted::parse("f")).collect() } else { let v: Vec<Scripted> = spec.split('/').map(Scripted::parse).collect(); assert!(v.len() == n); v }
 }
 
-/// feed the chunks as `write_all` / `io::copy` do: repeat `write` until the chunk is taken, retry on `Interrupted`.
-/// `ret_ok` records whether every call took its whole buffer at once.
-fn feed<W: Write>(w: &mut W, chunks: &[Vec<u8>], ret_ok: &mut bool) {
-    for c in chunks {
+/// give the ops to the writer; chunks as `write_all` / `io::copy` do: repeat `write` until the chunk is taken, retry on
+/// `Interrupted`. `ret_ok` records whether every `write` call took its whole buffer at once and every `flush` returned `Ok`.
+fn feed<W: Write>(w: &mut W, ops: &[Op], ret_ok: &mut bool) {
+    for op in ops {
+        let c = match op { Op::F => { if w.flush().is_err() { *ret_ok = false; } continue; } Op::W(c) => c };
         if c.is_empty() { if !matches!(w.write(c), Ok(0)) { *ret_ok = false; } continue; }
         let mut rest: &[u8] = c;
         let mut guard = 0;
@@ -68,25 +75,37 @@ fn run_a(f: &[String]) -> String {
     assert!(marker.len() == 1);
     let marker = marker[0];
     let prefix = if f[2] == "-" { vec![] } else { unhex(&f[2]).unwrap() };
-    let chunks = parse_chunks(&f[3]);
+    let ops = parse_ops(&f[3]);
     let wspec = f.get(4).map(String::as_str).unwrap_or("-");
     assert!(f.len() <= 5);
     let inner = |i: usize| writers(wspec, 3).swap_remove(i);
+    let pre = || add_prefix(prefix.clone());
     let mut ret_ok = true;
     // dropped
     let mut dropped = inner(2);
-    { let mut w = mapped(&mut dropped, marker, add_prefix(prefix.clone())); feed(&mut w, &chunks, &mut ret_ok); }
+    { let mut w = mapped(&mut dropped, marker, pre()); feed(&mut w, &ops, &mut ret_ok); }
     // unwrapped
-    let mut w = mapped(inner(2), marker, add_prefix(prefix.clone()));
-    feed(&mut w, &chunks, &mut ret_ok);
+    let mut w = mapped(inner(2), marker, pre());
+    feed(&mut w, &ops, &mut ret_ok);
     let unwrapped = w.unwrap();
     // line_mapped, dropped
     let mut line = inner(2);
-    { let mut w = line_mapped(&mut line, add_prefix(prefix.clone())); feed(&mut w, &chunks, &mut ret_ok); }
+    { let mut w = line_mapped(&mut line, pre()); feed(&mut w, &ops, &mut ret_ok); }
     // tee
     let (mut a, mut b) = (inner(0), inner(1));
-    { let mut t = tee(&mut a, &mut b); feed(&mut t, &chunks, &mut ret_ok); let _ = t.flush(); }
-    format!("drop={};unwrap={};line={};teea={};teeb={};ret={}", hex(&dropped.data), hex(&unwrapped.data), hex(&line.data), hex(&a.data), hex(&b.data), u8::from(ret_ok))
+    { let mut t = tee(&mut a, &mut b); feed(&mut t, &ops, &mut ret_ok); }
+    // tee into mapped
+    let (mut tma, mut tmb) = (inner(0), inner(2));
+    { let mut t = tee(&mut tma, mapped(&mut tmb, marker, pre())); feed(&mut t, &ops, &mut ret_ok); }
+    // mapped into tee
+    let (mut mta, mut mtb) = (inner(0), inner(1));
+    { let mut w = mapped(tee(&mut mta, &mut mtb), marker, pre()); feed(&mut w, &ops, &mut ret_ok); }
+    // mapped of line_mapped
+    let mut mm = inner(2);
+    { let mut w = mapped(line_mapped(&mut mm, add_prefix(b"| ".to_vec())), marker, pre()); feed(&mut w, &ops, &mut ret_ok); }
+    let fl: Vec<String> = [&dropped, &unwrapped, &line, &a, &b, &tma, &tmb, &mta, &mtb, &mm].iter().map(|w| w.flushes.to_string()).collect();
+    format!("drop={};unwrap={};line={};teea={};teeb={};tm={}/{};mt={}/{};mm={};fl={};ret={}", hex(&dropped.data), hex(&unwrapped.data), hex(&line.data), hex(&a.data), hex(&b.data),
+            hex(&tma.data), hex(&tmb.data), hex(&mta.data), hex(&mtb.data), hex(&mm.data), fl.join("."), u8::from(ret_ok))
 }
 
 // ------------------------------------------------------------------------------------------------ B
@@ -126,40 +145,116 @@ fn attempt(mode: &str, wspec: &str, items: &str, limit: Duration) -> String {
     res
 }
 
+/// a timeout is retried once, alone (cases run one at a time in this binary); once confirmed, later cases get 2 s and no retry
+fn with_retry(attempt: &dyn Fn(Duration) -> String) -> String {
+    if CONFIRMED_TIMEOUT.load(Ordering::SeqCst) { return attempt(LIMIT_AFTER_CONFIRMED); }
+    let r = attempt(LIMIT);
+    if r != "timeout" { return r; }
+    let r = attempt(LIMIT);
+    if r == "timeout" { CONFIRMED_TIMEOUT.store(true, Ordering::SeqCst); }
+    r
+}
+
 fn run_b(f: &[String]) -> String {
     let (mode, wspec, items) = (f[1].as_str(), f[2].as_str(), f[3].as_str());
     assert!(mode == "seq" || mode == "par");
     assert!(f.len() == 4);
     let _ = writers(wspec, 2);
-    if CONFIRMED_TIMEOUT.load(Ordering::SeqCst) { return attempt(mode, wspec, items, LIMIT_AFTER_CONFIRMED); }
-    let r = attempt(mode, wspec, items, LIMIT);
-    if r != "timeout" { return r; }
-    // retried once, alone (cases run one at a time in this binary)
-    let r = attempt(mode, wspec, items, LIMIT);
-    if r == "timeout" { CONFIRMED_TIMEOUT.store(true, Ordering::SeqCst); }
-    r
+    with_retry(&|limit| attempt(mode, wspec, items, limit))
+}
+
+// ------------------------------------------------------------------------------------------------ M
+/// the targets handed to the entry points: `v` = a `Vec`, `l` = `line_mapped(Vec, "> ")`, `m` = `mapped(Vec, b'a', "<")`,
+/// `t` = `tee(line_mapped(Vec, "> "), Vec)`. `a` (and `b` for the tee) are the `Vec`s at the bottom.
+fn make_target<'a>(kind: u8, a: &'a mut Vec<u8>, b: &'a mut Vec<u8>) -> Box<dyn Write + Send + 'a> {
+    match kind {
+        b'v' => Box::new(a),
+        b'l' => Box::new(line_mapped(a, add_prefix(b"> ".to_vec()))),
+        b'm' => Box::new(mapped(a, b'a', add_prefix(b"<".to_vec()))),
+        b't' => Box::new(tee(line_mapped(a, add_prefix(b"> ".to_vec())), b)),
+        _ => panic!("target"),
+    }
+}
+
+fn attempt_m(entry: &str, mode: &str, to: u8, te: u8, items: &str, limit: Duration) -> String {
+    let child = std::env::current_exe().unwrap().parent().unwrap().join("child");
+    let dir = tempfile::tempdir().unwrap();
+    let pidfile = dir.path().join("pid");
+    let (tx, rx) = std::sync::mpsc::channel();
+    let (entry2, mode2, items2, pidfile2) = (entry.to_string(), mode.to_string(), items.to_string(), pidfile.clone());
+    let th = std::thread::spawn(move || {
+        let (mut oa, mut ob, mut ea, mut eb) = (vec![], vec![], vec![], vec![]);
+        let r = {
+            // the writers are handed over by value, as in the documented use; they are dropped (remainder emitted) inside
+            let wo = make_target(to, &mut oa, &mut ob);
+            let we = make_target(te, &mut ea, &mut eb);
+            let mut cmd = std::process::Command::new(child);
+            cmd.arg(mode2).arg(items2).env("CNBV_PIDFILE", pidfile2).stdin(std::process::Stdio::null());
+            if entry2 == "out" { cmd.output_and_write_streams(wo, we).map(|o| (o.status, Some((o.stdout, o.stderr)))) }
+            else { cmd.spawn_and_write_streams(wo, we).and_then(|mut c| c.wait()).map(|st| (st, None)) }
+        };
+        let _ = tx.send((r, oa, ob, ea, eb));
+    });
+    let res = match rx.recv_timeout(limit) {
+        Ok((Ok((status, out)), oa, ob, ea, eb)) => {
+            let part = |kind: u8, a: &[u8], b: &[u8]| if kind == b't' { format!("{}+{}", digest(a), digest(b)) } else { digest(a) };
+            let (od, ed) = match &out { Some((o, e)) => (digest(o), digest(e)), None => ("-".to_string(), "-".to_string()) };
+            format!("o={}/{};e={}/{};status={}", od, part(to, &oa, &ob), ed, part(te, &ea, &eb), status.code().map(|c| c.to_string()).unwrap_or_else(|| "signal".into()))
+        }
+        Ok((Err(_), ..)) => "err:io".to_string(),
+        Err(_) => {
+            if let Ok(p) = std::fs::read_to_string(&pidfile) { let _ = std::process::Command::new("kill").arg("-9").arg(p.trim()).status(); }
+            "timeout".to_string()
+        }
+    };
+    let _ = th.join();
+    res
+}
+
+fn run_m(f: &[String]) -> String {
+    assert!(f.len() == 5);
+    let (entry, mode, targets, items) = (f[1].as_str(), f[2].as_str(), f[3].as_bytes(), f[4].as_str());
+    assert!(entry == "out" || entry == "spawn");
+    assert!(mode == "seq" || mode == "par");
+    assert!(targets.len() == 3 && targets[1] == b'/' && b"vlmt".contains(&targets[0]) && b"vlmt".contains(&targets[2]));
+    with_retry(&|limit| attempt_m(entry, mode, targets[0], targets[2], items, limit))
 }
 
 fn run_case(f: &[String]) -> String {
-    match f[0].as_str() { "A" => run_a(f), "B" => run_b(f), _ => panic!("kind") }
+    match f[0].as_str() { "A" => run_a(f), "B" => run_b(f), "M" => run_m(f), _ => panic!("kind") }
 }
 
 // ------------------------------------------------------------------------------------------------ generators
-fn chunks_field(chunks: &[Vec<u8>]) -> String { join(",", &chunks.iter().map(|c| if c.is_empty() { "_".to_string() } else { hex(c) }).collect::<Vec<_>>()) }
+fn ops_field(ops: &[Op]) -> String { join(",", &ops.iter().map(|o| match o { Op::F => "F".to_string(), Op::W(c) if c.is_empty() => "_".to_string(), Op::W(c) => hex(c) }).collect::<Vec<_>>()) }
+fn ws(chunks: &[Vec<u8>]) -> Vec<Op> { chunks.iter().map(|c| Op::W(c.clone())).collect() }
 
-fn case_a(marker: u8, prefix: &[u8], chunks: &[Vec<u8>], wspec: &str, kind: &str) -> Case {
-    let input: Vec<u8> = chunks.concat();
+fn case_a(marker: u8, prefix: &[u8], ops: &[Op], wspec: &str, kind: &str) -> Case {
+    let chunks: Vec<&Vec<u8>> = ops.iter().filter_map(|o| if let Op::W(c) = o { Some(c) } else { None }).collect();
+    let input: Vec<u8> = chunks.iter().flat_map(|c| c.iter().copied()).collect();
     let markers = input.iter().filter(|b| **b == marker).count();
     let rem_empty = input.last().map(|b| *b == marker).unwrap_or(true);
-    // a chunk boundary strictly inside a segment (between two bytes the first of which is not a marker)
+    // a chunk boundary strictly inside a segment (between two bytes the first of which is not a marker);
+    // a flush that arrives while a partial segment is pending
     let mut pos = 0;
     let mut inside = false;
-    for c in &chunks[..chunks.len().saturating_sub(1)] { pos += c.len(); if pos > 0 && pos < input.len() && input[pos - 1] != marker { inside = true; } }
+    let mut flush_in_seg = false;
+    let mut writes_seen = 0;
+    for o in ops {
+        match o {
+            Op::W(c) => { pos += c.len(); writes_seen += 1; if writes_seen < chunks.len() && pos > 0 && pos < input.len() && input[pos - 1] != marker { inside = true; } }
+            Op::F => { if pos > 0 && input[pos - 1] != marker { flush_in_seg = true; } }
+        }
+    }
+    let flushes = ops.iter().filter(|o| **o == Op::F).count();
+    let double = ops.windows(2).any(|w| w[0] == Op::F && w[1] == Op::F);
     Case {
-        fields: vec!["A".into(), hex(&[marker]), if prefix.is_empty() { "-".into() } else { hex(prefix) }, chunks_field(chunks), wspec.into()],
+        fields: vec!["A".into(), hex(&[marker]), if prefix.is_empty() { "-".into() } else { hex(prefix) }, ops_field(ops), wspec.into()],
         tags: vec![("kind".into(), kind.into()), ("len".into(), input.len().min(20).to_string()), ("chunks".into(), chunks.len().min(12).to_string()),
-                   ("markers".into(), markers.min(5).to_string()), ("rem_empty".into(), u8::from(rem_empty).to_string()), ("split_in_seg".into(), u8::from(inside).to_string()), ("writers".into(), if wspec == "-" { "plain".into() } else { "short".to_string() })],
-        nontrivial: markers >= 1 && chunks.len() >= 2 && inside,
+                   ("markers".into(), markers.min(5).to_string()), ("rem_empty".into(), u8::from(rem_empty).to_string()), ("split_in_seg".into(), u8::from(inside).to_string()),
+                   ("flushes".into(), flushes.min(4).to_string()), ("flush_in_seg".into(), u8::from(flush_in_seg).to_string()), ("flush_twice".into(), u8::from(double).to_string()),
+                   ("flush_first".into(), u8::from(ops.first() == Some(&Op::F)).to_string()), ("flush_last".into(), u8::from(ops.last() == Some(&Op::F)).to_string()),
+                   ("writers".into(), if wspec == "-" { "plain".into() } else { "short".to_string() })],
+        nontrivial: markers >= 1 && ((chunks.len() >= 2 && inside) || flush_in_seg),
     }
 }
 
@@ -173,6 +268,32 @@ fn case_bw(mode: &str, wspec: &str, items: &[(bool, usize, usize, u64)], kind: &
         tags: vec![("kind".into(), kind.into()), ("stdout".into(), bucket(so).into()), ("stderr".into(), bucket(se).into()), ("items".into(), items.len().min(9).to_string()),
                    ("delays".into(), u8::from(items.iter().any(|i| i.3 > 0)).to_string()), ("writers".into(), if wspec == "-" { "plain".into() } else { "short".to_string() })],
         nontrivial: (so > 0 && se > 0) || so > 65536 || se > 65536,
+    }
+}
+
+type MItem = (bool, usize, usize, u64, bool);
+fn case_m(entry: &str, mode: &str, targets: &str, items: &[MItem], kind: &str) -> Case {
+    let bytes = |st: bool| -> Vec<u8> { items.iter().filter(|i| i.0 == st).flat_map(|&(_, len, seed, _, text)| (0..len).map(move |i| if text { (97 + (seed + i) % 26) as u8 } else { ((seed + i) % 251) as u8 })).collect() };
+    // longest line of a stream, and whether a line of it is written in several pieces (an item boundary inside a line)
+    let shape = |st: bool| -> (usize, bool) {
+        let b = bytes(st);
+        let longest = b.split(|x| *x == b'\n').map(<[u8]>::len).max().unwrap_or(0);
+        let mut pos = 0;
+        let mut pieces = false;
+        for i in items.iter().filter(|i| i.0 == st) { if pos > 0 && i.1 > 0 && b[pos - 1] != b'\n' { pieces = true; } pos += i.1; }
+        (longest, pieces)
+    };
+    let ((lo, po), (le, pe)) = (shape(false), shape(true));
+    let t = targets.as_bytes();
+    let mapped_o = t[0] != b'v' && !bytes(false).is_empty();
+    let mapped_e = t[2] != b'v' && !bytes(true).is_empty();
+    let bucket = |n: usize| if n == 0 { "0" } else if n <= 8192 { "le8k" } else if n <= 65536 { "le64k" } else { "gt64k" };
+    Case {
+        fields: vec!["M".into(), entry.into(), mode.into(), targets.into(), join(";", &items.iter().map(|(st, l, s, d, t)| format!("{}.{l}.{s}.{d}{}", if *st { "e" } else { "o" }, if *t { ".t" } else { "" })).collect::<Vec<_>>())],
+        tags: vec![("kind".into(), kind.into()), ("entry".into(), entry.into()), ("targets".into(), targets.into()), ("longest_line".into(), bucket(lo.max(le)).into()),
+                   ("line_in_pieces".into(), u8::from(po || pe).to_string()), ("delays".into(), u8::from(items.iter().any(|i| i.3 > 0)).to_string()), ("items".into(), items.len().min(9).to_string())],
+        // a mapped target whose stream has a line that cannot arrive in one read: written in pieces, or longer than the 8 KiB copy buffer
+        nontrivial: (mapped_o && (po || lo > 8192)) || (mapped_e && (pe || le > 8192)),
     }
 }
 
@@ -198,7 +319,7 @@ fn generate(tier: &str, seed: u64, emit: &mut dyn FnMut(Case)) {
         for n in 0..=nmax {
             for bits in 0u32..(1 << n) {
                 let s: Vec<u8> = (0..n).map(|i| if bits >> i & 1 == 1 { marker } else { other }).collect();
-                chunkings(&s, &mut |chunks| emit(case_a(marker, b"> ", &chunks, "-", kind)));
+                chunkings(&s, &mut |chunks| emit(case_a(marker, b"> ", &ws(&chunks), "-", kind)));
             }
         }
     }
@@ -209,7 +330,36 @@ fn generate(tier: &str, seed: u64, emit: &mut dyn FnMut(Case)) {
     for n in 1..=ns {
         for bits in 0u32..(1 << n) {
             let s: Vec<u8> = (0..n).map(|i| if bits >> i & 1 == 1 { b'\n' } else { b'a' }).collect();
-            chunkings(&s, &mut |chunks| for w in WCFG { emit(case_a(b'\n', b"> ", &chunks, w, "A-exh-short")); });
+            chunkings(&s, &mut |chunks| for w in WCFG { emit(case_a(b'\n', b"> ", &ws(&chunks), w, "A-exh-short")); });
+        }
+    }
+    // A1f. `flush()` between the writes: every string over {marker, other} x every chunking into k non-empty chunks x, at each of the
+    //      k + 1 gaps (before the first write, between two writes, after the last), 0, 1 or 2 flushes for length <= nf2, 0 or 1 flush
+    //      for length <= nf; marker '\n' (plain targets), marker 'a' (length <= na, 0/1/2), short-writing targets (length <= na, 0/1)
+    let (nf2, nf, na) = if thorough { (5, 6, 4) } else { (4, 5, 3) };
+    let with_flushes = |s: &[u8], base: u32, emit_ops: &mut dyn FnMut(Vec<Op>)| {
+        chunkings(s, &mut |chunks| {
+            let gaps = chunks.len() as u32 + 1;
+            for mut code in 0..base.pow(gaps) {
+                let mut ops = vec![];
+                for g in 0..gaps as usize {
+                    for _ in 0..code % base { ops.push(Op::F); }
+                    code /= base;
+                    if g < chunks.len() { ops.push(Op::W(chunks[g].clone())); }
+                }
+                emit_ops(ops);
+            }
+        });
+    };
+    for n in 0..=nf {
+        for bits in 0u32..(1 << n) {
+            let s: Vec<u8> = (0..n).map(|i| if bits >> i & 1 == 1 { b'\n' } else { b'a' }).collect();
+            with_flushes(&s, if n <= nf2 { 3 } else { 2 }, &mut |ops| emit(case_a(b'\n', b"> ", &ops, "-", "A-exh-flush-nl")));
+            if n <= na {
+                let s2: Vec<u8> = (0..n).map(|i| if bits >> i & 1 == 1 { b'a' } else { b'\n' }).collect();
+                with_flushes(&s2, 3, &mut |ops| emit(case_a(b'a', b"> ", &ops, "-", "A-exh-flush-a")));
+                with_flushes(&s, 2, &mut |ops| for w in WCFG { emit(case_a(b'\n', b"> ", &ops, w, "A-exh-flush-short")); });
+            }
         }
     }
     // A2. sampled: longer inputs, three symbols, empty chunks, other markers and prefixes (also a prefix containing the marker)
@@ -223,10 +373,21 @@ fn generate(tier: &str, seed: u64, emit: &mut dyn FnMut(Case)) {
         let len = r.below(lmax) as usize;
         let pm = r.range(1, 3);
         let input: Vec<u8> = (0..len).map(|_| if r.chance(pm, 4) { marker } else { *r.pick(&others) }).collect();
-        let mut chunks = vec![];
+        let mut chunks: Vec<Op> = vec![];
         let mut cur = vec![];
-        for b in &input { cur.push(*b); if r.chance(1, 3) { chunks.push(std::mem::take(&mut cur)); while r.chance(1, 6) { chunks.push(vec![]); } } }
-        if !cur.is_empty() || r.chance(1, 4) { chunks.push(cur); }
+        // half of the samples with flushes: at the start, after a chunk (sometimes twice), at the end
+        let fl = r.chance(1, 2);
+        if fl && r.chance(1, 4) { chunks.push(Op::F); }
+        for b in &input {
+            cur.push(*b);
+            if r.chance(1, 3) {
+                chunks.push(Op::W(std::mem::take(&mut cur)));
+                while r.chance(1, 6) { chunks.push(Op::W(vec![])); }
+                if fl && r.chance(1, 3) { chunks.push(Op::F); if r.chance(1, 5) { chunks.push(Op::F); } }
+            }
+        }
+        if !cur.is_empty() || r.chance(1, 4) { chunks.push(Op::W(cur)); }
+        if fl && r.chance(1, 3) { chunks.push(Op::F); }
         let wspec = if r.chance(1, 2) { "-".to_string() } else {
             let one = |r: &mut Rng| { let m = *r.pick(&["f", "s", "a"]); let k = *r.pick(&[1u32, 2, 3, 7]); let i = if r.chance(1, 3) { format!("i{}", r.range(2, 5)) } else { String::new() }; if m == "f" { format!("f{i}") } else { format!("{m}{k}{i}") } };
             format!("{}/{}/{}", one(&mut r), one(&mut r), one(&mut r)) };
@@ -283,6 +444,64 @@ fn generate(tier: &str, seed: u64, emit: &mut dyn FnMut(Case)) {
         let k = r.range(1, 6) as usize;
         let items: Vec<_> = (0..k).map(|_| (r.chance(1, 2), *r.pick(&[0usize, 1, 100, 5000, BUF, BUF + 1, 100_000, 200_000]), r.below(251) as usize, if r.chance(1, 5) { r.below(8) } else { 0 })).collect();
         emit(case_b(if r.chance(1, 3) { "par" } else { "seq" }, &items, "B-rnd"));
+    }
+    // M. mapped / line_mapped / tee(line_mapped, Vec) writers as the targets of both entry points; lines that arrive in pieces
+    //    (text, a delay, more text, newline) or are longer than the 8 KiB copy buffer / the 64 KiB pipe. `nl` = an item that is one newline.
+    let (o, e) = (false, true);
+    let nl = |st: bool, d: u64| -> MItem { (st, 1, 10, d, false) };
+    let tx = |st: bool, len: usize, seed: usize, d: u64| -> MItem { (st, len, seed, d, true) };
+    let entries = ["out", "spawn"];
+    // a line in two pieces on both streams, then an unterminated tail
+    for &d in &[5u64, 15] {
+        for tg in ["l/v", "v/l", "l/l", "m/m", "t/t", "m/l"] {
+            for en in entries {
+                let piece = |st: bool| vec![tx(st, 13, 1, 0), tx(st, 5, 3, d), nl(st, 0), tx(st, 4, 7, 0)];
+                let mut items = piece(o);
+                items.extend(piece(e));
+                emit(case_m(en, "seq", tg, &items, "M-piecewise"));
+            }
+        }
+    }
+    // a line in three pieces whose newline comes alone, a second line, nothing after the last newline; one stream
+    for (i, tg) in ["l/v", "m/v", "t/v", "v/l", "v/m", "v/t"].iter().enumerate() {
+        let st = i >= 3;
+        let items = vec![tx(st, 4, 1, 0), tx(st, 4, 5, 5), tx(st, 4, 9, 5), nl(st, 5), tx(st, 3, 2, 0), nl(st, 5)];
+        emit(case_m(entries[i % 2], "seq", tg, &items, "M-piecewise"));
+        emit(case_m(entries[(i + 1) % 2], "par", tg, &items, "M-piecewise"));
+    }
+    // one long line written at once (longer than the copy buffer / than the pipe), newline, short tail
+    let long: &[usize] = if thorough { &[8191, 8192, 8193, 20000, BUF, BUF + 1, 140_000, 4 * BUF] } else { &[8193, 20000, BUF + 1, 140_000] };
+    for (i, &n) in long.iter().enumerate() {
+        for (j, tg) in ["l/v", "t/v", "m/v", "v/l"].iter().enumerate() {
+            let st = *tg == "v/l";
+            emit(case_m(entries[(i + j) % 2], "seq", tg, &[tx(st, n, 3, 0), nl(st, 0), tx(st, 9, 1, 0)], "M-long-line"));
+        }
+    }
+    for tg in ["l/l", "t/m"] { for en in entries {
+        emit(case_m(en, "par", tg, &[tx(o, 70_000, 3, 0), nl(o, 0), tx(e, 70_001, 4, 0), nl(e, 0), tx(o, 2, 1, 0)], "M-long-line"));
+    } }
+    // many short lines in one write (the raw pattern holds a newline every 251 bytes): lines straddle the read boundaries
+    emit(case_m("out", "seq", "l/v", &[(o, 20_000, 0, 0, false)], "M-many-lines"));
+    emit(case_m("spawn", "seq", "t/v", &[(o, 20_000, 7, 0, false)], "M-many-lines"));
+    emit(case_m("out", "seq", "v/l", &[(e, 70_000, 5, 0, false)], "M-many-lines"));
+    emit(case_m("spawn", "par", "m/t", &[(o, 30_000, 1, 0, false), (e, 30_000, 2, 0, false)], "M-many-lines"));
+    // nothing at all / a single newline
+    emit(case_m("out", "seq", "l/m", &[], "M-empty"));
+    emit(case_m("spawn", "seq", "t/t", &[], "M-empty"));
+    emit(case_m("out", "seq", "l/l", &[nl(o, 0), nl(e, 0)], "M-empty"));
+    // sampled
+    let rnd_m = if thorough { 300 } else { 30 };
+    for idx in 0..rnd_m {
+        let mut r = Rng::for_case(seed ^ 0x4D, idx);
+        let k = r.range(1, 6) as usize;
+        let items: Vec<MItem> = (0..k).map(|_| {
+            let st = r.chance(1, 2);
+            let d = if r.chance(1, 3) { 3 } else { 0 };
+            if r.chance(1, 4) { nl(st, d) } else if r.chance(1, 8) { (st, r.below(3000) as usize, r.below(251) as usize, d, false) }
+            else { tx(st, *r.pick(&[0usize, 1, 5, 100, 8191, 8192, 8193, 30_000]), r.below(26) as usize, d) }
+        }).collect();
+        let tg = format!("{}/{}", *r.pick(&["v", "l", "m", "t"]), *r.pick(&["v", "l", "m", "t"]));
+        emit(case_m(*r.pick(&entries), if r.chance(1, 3) { "par" } else { "seq" }, &tg, &items, "M-rnd"));
     }
 }
 
